@@ -16,6 +16,7 @@ HELPERS: dict = {}        # name -> ast.FunctionDef of spec helpers (common.py +
 HELPER_GLOBALS: dict = {}  # shared namespace
 CONTRACT_AST: dict = {}   # qualname -> ast.FunctionDef
 LEMMA_AST: dict = {}      # name -> ast.FunctionDef
+INVARIANT_AST: dict = {}  # (qualname, loop ordinal) -> ast.FunctionDef
 SOURCES: dict = {}        # sidecar file -> source text
 
 
@@ -33,7 +34,7 @@ class _LazyImplies(ast.NodeTransformer):
 def _vocab():
     return {
         k: getattr(spec, k)
-        for k in ("contract", "lemma", "requires", "ensures", "raises", "pure", "modifies", "old", "hint", "implies", "Skip")
+        for k in ("contract", "lemma", "invariant", "requires", "ensures", "raises", "pure", "modifies", "old", "hint", "implies", "Skip")
     }
 
 
@@ -69,6 +70,13 @@ def load(files=None):
                         key = ast.literal_eval(d.args[0])
                         (CONTRACT_AST if d.func.id == "contract" else LEMMA_AST)[key] = node
                         node._sidecar = fname
+                    elif isinstance(d, ast.Call) and isinstance(d.func, ast.Name) and d.func.id == "invariant":
+                        key = ast.literal_eval(d.args[0])
+                        loop = 0
+                        for kw in d.keywords:
+                            if kw.arg == "loop":
+                                loop = ast.literal_eval(kw.value)
+                        INVARIANT_AST[(key, loop)] = node
         exec(compile(tree, path, "exec"), ns)
 
 
